@@ -846,6 +846,8 @@ def families(tier, seed):
         jobs.append({"family": "expr", "prog": p, "child": r.random() < 0.3})
     for p in G.const_operand_programs(4):
         jobs.append({"family": "expr", "prog": p, "child": False})
+    for p in G.extension_programs():
+        jobs.append({"family": "expr", "prog": p, "child": False})
     for k in range(16 if tier == "quick" else 200):
         jobs.append({"family": "split", "seed": seed * 100 + k, "kind": ["sync+comb", "comb+sync", "two-domains", "two-modules"][k % 4],
                      "async": k % 8 >= 4, "edge": "neg" if k % 3 == 0 else "pos"})
